@@ -284,6 +284,14 @@ func (k KeyRing) VerifyJSONs(ctx context.Context, requests []VerifyJSONRequest) 
 
 		// Hold the new keys and remove them from the request queue.
 		for req, res := range fetched {
+			if _, requested := keyRequests[req]; !requested {
+				if _, have := keysFetched[req]; have {
+					// An answer nobody asked for must not replace a key that the
+					// database (or an earlier fetcher) supplied and that we had no
+					// reason to refresh.
+					continue
+				}
+			}
 			keysFetched[req] = res
 			delete(keyRequests, req)
 		}
